@@ -118,6 +118,29 @@ func ruleR19a(h *H) {
 			}
 			h.Verdict(good, rule, fmt.Sprintf("ensemble member #%d in %s", n, ir.FuncName(fn)), h.pos(in), "the id that was added to the selected set", "an id is put into the ensemble without being recorded as selected (it could be selected again: duplicate member)")
 		})
+		// the same with the result built by append(result, id)
+		ir.Instrs(fn, func(in ssa.Instruction) {
+			c, ok := in.(*ssa.Call)
+			if !ok {
+				return
+			}
+			b, isB := c.Call.Value.(*ssa.Builtin)
+			if !isB || b.Name() != "append" || c.Type().String() != "[]string" {
+				return
+			}
+			el := appendedElem(c)
+			if el == nil {
+				return
+			}
+			n++
+			good := false
+			for _, a := range added {
+				if a == ir.Canon(el) {
+					good = true
+				}
+			}
+			h.Verdict(good, rule, fmt.Sprintf("ensemble member #%d in %s", n, ir.FuncName(fn)), h.pos(in), "the id that was added to the selected set", "an id is put into the ensemble without being recorded as selected (it could be selected again: duplicate member)")
+		})
 	}
 }
 
